@@ -35,6 +35,12 @@ class Base(desper.Processor):
     def __repr__(self):
         return self.label
 
+    # processors may define value equality (compared by period, name ...):
+    # all harness processors are equal to each other - the world is about
+    # processor *objects*
+    def __eq__(self, other):
+        return isinstance(other, Base)
+
     def __hash__(self):
         # deterministic (labels are strings, PYTHONHASHSEED is fixed): the
         # iteration order of desper's listener sets must not depend on
@@ -65,9 +71,21 @@ class PH(Base):
 
     def attached(self):
         self.log.append((self.label, 'on_add', self.world))
+        self._look()
 
     def detached(self):
         self.log.append((self.label, 'on_remove', self.world))
+        self._look()
+
+    def _look(self):
+        # a callback may read the world while the operation is under way
+        # (whatever it sees then is not judged, only that reading is safe
+        # and leaves nothing stale behind)
+        w = self.world
+        if w is not None:
+            list(w.processors)
+            for klass in CLASSES.values():
+                w.get_processor(klass)
 
     def on_add(self, *args):
         self.log.append((self.label, 'DECOY on_add called by name', None))
